@@ -185,7 +185,7 @@ LineOf(W, F, r) == [ev |-> "scan", src |-> "model", id |-> 0, faults |-> SetToSo
                     panic |-> FALSE, hang |-> FALSE, exit |-> FALSE, panicMsg |-> "",
                     lookups |-> [g \in {G} |-> <<>>]]
 
-PropViolations(W, F, r) == {v \in Violations(LineOf(W, F, r), W, r.W, r) : v[1] \in PropIds}
+PropViolations(W, F, r) == ViolationsFor(PropIds, LineOf(W, F, r), W, r.W, r)
 
 RunOnceAct ==
   /\ alive
